@@ -551,6 +551,11 @@ def parse_terminator(t):
         term.targets = [bbnum(tg["return"])] if "return" in tg else [None]
         uw = tg.get("unwind")
         term.unwind = bbnum(uw) if uw and uw.startswith("bb") else None
+        if len(parts) > 1 and re.match(r"^bb\d+$", parts[1].strip()):
+            # rustc prints a single unlabelled successor for a call only when the call DIVERGES and
+            # has a cleanup block (target: None, unwind: Cleanup(bb)): `panic_fmt(..) -> bb16`
+            term.targets = [None]
+            term.unwind = bbnum(parts[1].strip())
         return term
     raise MirUnsupported("terminator: " + t)
 
